@@ -131,8 +131,9 @@ class ZInt:
 
 class ZSeq:
     """A bare z3 Seq(Val) (iteration views: dict keys, values, zip results are built from these)."""
-    __slots__ = ("s", "kind")
+    __slots__ = ("s", "kind", "elem_cls")
 
-    def __init__(self, s, kind="list"):
+    def __init__(self, s, kind="list", elem_cls=None):
         self.s = s
         self.kind = kind        # 'list' | 'tuple' | 'keys' | 'values' | 'range'
+        self.elem_cls = elem_cls        # static class of every element (type invariant stated by the shape), or None
